@@ -12,9 +12,11 @@ Obligations:
             to this event and keeps every other capture
   complete  an Accept successor yields Complete with the stack = old stack ++ [event] and the captures above; a Normal one yields Continue
   nomatch   if no successor accepts the event the run is returned untouched (NoMatch; Invalidate under strict contiguity)
-Every stack entry after the first is put there by this step (the first by try_start_run_shared, outside the encoding), so from the second
-step on the stack of any reported match lists, in step order, events that had their step's type and satisfied their step's filter against
-the earlier captures.
+  start     try_start_run_shared (the first step): a run is started iff some first-step candidate accepts the event (type and filter, with
+            no captures yet: a reference filter cannot hold), through the first such candidate; its stack is exactly this event and the alias
+            (if any) is bound to it
+Every stack entry is put there by one of these two steps, so the stack of any reported plain-sequence match lists, in step order, events that
+had their step's type and satisfied their step's filter against the earlier captures.
 """
 import itertools
 import re
@@ -168,6 +170,9 @@ def hooks():
         (r'^<(?:std::option::)?Option<%s> as Clone>::clone$' % S, h_opt_clone),
         (r'^std::mem::take::<.*>$', h_mem_take),
         (r'^std::time::Instant::elapsed$', h_elapsed),
+        (r'^std::time::Instant::now$', lambda ex, st, callee, args: ex.fresh('instant', 64)),
+        (r'^<LazyLock<HashMap<%s, Arc<(?:event::)?Event>, FxBuildHasher>> as (?:std::ops::)?Deref>::deref$' % S, lambda ex, st, callee, args: box(MapM([]))),
+        (r'^<HashMap<%s, Arc<(?:event::)?Event>, FxBuildHasher> as Default>::default$|^HashMap::<%s, Arc<(?:event::)?Event>, FxBuildHasher>::(?:new|default)$' % (S, S), lambda ex, st, callee, args: MapM([])),
     ]
 
 
@@ -311,7 +316,7 @@ def job(spec):
     from props.c09 import job as _unused  # noqa: F401  (c09 shares the comparison semantics; the filter itself is re-executed below)
     verdicts = []; stats = {'q': 0, 's': 0.0}
     def prove(pc, cond, nm, wit):
-        s = z3.Solver(); s.set('timeout', 30000); s.add(*pc); s.add(Not(cond))
+        s = z3.Solver(); s.set('timeout', 120000); s.add(*pc); s.add(Not(cond))
         t = time.time(); rc = s.check(); dt = time.time() - t; stats['q'] += 1; stats['s'] += dt
         d = {'name': nm, 'status': 'proved' if rc == z3.unsat else ('violated' if rc == z3.sat else 'unknown'), 'secs': dt, 'kind': 'post'}
         if rc == z3.sat: d['witness'] = wit(s.model())
@@ -398,7 +403,103 @@ def job(spec):
     return {'spec': [str(x) for x in spec], 'verdicts': verdicts, 'paths': len(res), 'queries': ex.queries + stats['q'], 'solver_s': ex.solver_s + stats['s'], 'inconclusive': inc, 'wall_s': time.time() - t0}
 
 
+def job_start(spec):
+    """try_start_run_shared: the first step of a sequence.  spec = ('start', nsucc, kinds, op, event_time, tier)"""
+    _, nsucc, kinds, op, event_time, tier = spec
+    global LIT_CLASSES
+    LIT_CLASSES = ['Int', 'Float', 'Str', 'Bool'] if tier == 'thorough' else ['Int', 'Str']
+    t0 = time.time()
+    src = open(mirdump.crate_dir('runtime') + '/src/sase.rs').read()
+    ex = mk_exec(src)
+    sf = struct_fields(src, 'State'); rf = struct_fields(src, 'Run'); nf = struct_fields(src, 'Nfa'); ef = struct_fields(src, 'StackEntry'); gf = struct_fields(src, 'SaseEngine')
+    if not sf or not rf or nf != ['states', 'start_state', 'accept_states'] or ef != ['event', 'alias', 'timestamp'] or not gf or not {'nfa', 'time_semantics'} <= set(gf):
+        raise Unsupported('sase.rs structs changed')
+    ts_var = enum_list(src, 'TimeSemantics')
+    if ts_var != ['ProcessingTime', 'EventTime']: raise Unsupported('TimeSemantics changed: %s' % ts_var)
+    ex.variants['TimeSemantics'] = list(ts_var)
+    classes = ['Int', 'Float', 'Str', 'Bool', 'Null'] if tier == 'thorough' else ['Int', 'Str', 'Null']
+    cons = []
+    event, ety, c = mk_event('e', classes); cons.append(c)
+    def state(i, stype, ev_type_opt, pred_opt, alias_opt, transitions):
+        vals = {f: Opaque('state%d.%s' % (i, f)) for f in sf}
+        vals.update({'id': BitVecVal(i, 64), 'state_type': Enum('StateType', stype, {t: [] for t in STATE_TYPES}), 'event_type': ev_type_opt, 'predicate': pred_opt, 'alias': alias_opt,
+                     'epsilon_transitions': ListModel([]), 'transitions': ListModel([BitVecVal(t, 64) for t in transitions]), 'self_loop': BoolVal(False), 'timeout': none(), 'and_config': none(),
+                     'negation_info': none(), 'postponed_predicate': none(), 'has_epsilon_to_accept': BoolVal(False)})
+        return [vals[f] for f in sf]
+    succ = []
+    states = [state(0, BitVecVal(STATE_TYPES.index('Start'), 64), none(), none(), none(), list(range(1, nsucc + 1)))]
+    for i in range(1, nsucc + 1):
+        has_ty = z3.Bool('s%d_has_type' % i); sty = BitVec('s%d_type' % i, 16); has_alias = z3.Bool('s%d_has_alias' % i); sal = BitVec('s%d_alias' % i, 16)
+        k = kinds[i - 1]
+        if k == 'none': pred_opt = none()
+        else:
+            pv_, c = predicate(k, op, src); cons.append(c); pred_opt = some(pv_)
+        states.append(state(i, BitVecVal(STATE_TYPES.index('Normal'), 64), Enum('Option', If(has_ty, BitVecVal(1, 64), BitVecVal(0, 64)), {'Some': [V.StrTok(sty)], 'None': []}), pred_opt,
+                            Enum('Option', If(has_alias, BitVecVal(1, 64), BitVecVal(0, 64)), {'Some': [V.StrTok(sal)], 'None': []}), []))
+        succ.append({'has_ty': has_ty, 'ty': sty, 'has_alias': has_alias, 'alias': sal, 'kind': k})
+    nvals = {'states': ListModel(states), 'start_state': BitVecVal(0, 64), 'accept_states': ListModel([])}
+    gvals = {f: Opaque('engine.' + f) for f in gf}
+    tsn = 'EventTime' if event_time else 'ProcessingTime'
+    gvals.update({'nfa': [nvals[f] for f in nf], 'time_semantics': Enum('TimeSemantics', BitVecVal(ts_var.index(tsn), 64), {tsn: []})})
+    engine = [gvals[f] for f in gf]
+    st0 = State(); st0.path.assume(And(*cons))
+    fns = [x for x in _MODS[0].funcs if re.search(r'^sase::<impl at [^>]*>::try_start_run_shared$', x)]
+    if len(fns) != 1: raise Unsupported('try_start_run_shared: %s' % fns)
+    res = ex.run(_MODS[0].funcs[fns[0]], [box(engine), event], st=st0)
+    verdicts = []; stats = {'q': 0, 's': 0.0}
+    def prove(pc, cond, nm, wit):
+        s = z3.Solver(); s.set('timeout', 120000); s.add(*pc); s.add(Not(cond))
+        t = time.time(); rc = s.check(); dt = time.time() - t; stats['q'] += 1; stats['s'] += dt
+        d = {'name': nm, 'status': 'proved' if rc == z3.unsat else ('violated' if rc == z3.sat else 'unknown'), 'secs': dt, 'kind': 'post'}
+        if rc == z3.sat: d['witness'] = wit(s.model())
+        verdicts.append(d)
+    for v in discharge(ex, res, None, timeout_ms=30000):
+        verdicts.append({'name': v.name, 'status': v.status, 'secs': v.secs, 'kind': v.kind})
+    xp, xv = FIELDS['e']
+    def accepts(k):
+        s = succ[k]
+        f = BoolVal(True) if s['kind'] == 'none' else (And(xp, sase_cmp(xv, PRED_INFO['lit'], op)) if s['kind'] == 'lit' else BoolVal(False))     # nothing is captured yet: a reference filter cannot hold
+        return And(Or(Not(s['has_ty']), s['ty'] == ety), f)
+    def wit(m):
+        return {'start': True, 'succ': [{'has_type': bool(z3.is_true(m.eval(s['has_ty'], True))), 'type': m.eval(s['ty'], True).as_long(), 'filter': s['kind']} for s in succ], 'op': op,
+                'event': {'type': m.eval(ety, True).as_long(), 'has_field': bool(z3.is_true(m.eval(xp, True)))}}
+    for r in res:
+        if r.status != 'return': continue
+        pc = r.path.pc; ret = r.ret
+        started = z3.simplify(ret.disc == 1)
+        if z3.is_true(started):
+            run = ret.fields['Some'][0]
+            cur = z3.simplify(run[rf.index('current_state')])
+            k = cur.as_long() - 1 if z3.is_bv_value(cur) else None
+            if k is None or not (0 <= k < nsucc):
+                prove(pc, BoolVal(False), 'start: the new run sits in a successor of the start state', wit); continue
+            s = succ[k]
+            prove(pc, accepts(k), 'start: the first event has the first step\'s type and satisfies its filter (no captures yet)', wit)
+            prove(pc, And(*[Not(accepts(j)) for j in range(k)]) if k else BoolVal(True), 'start: no earlier successor accepted the event (first match wins)', wit)
+            stack = run[rf.index('stack')]; caps = run[rf.index('captured')]
+            while isinstance(stack, Ptr): stack = stack.get()
+            while isinstance(caps, Ptr): caps = caps.get()
+            tags = [ev_tag(x[0]) for x in stack.items]
+            prove(pc, BoolVal(tags == ['#e']), 'start: the stack of the new run is exactly this event', wit)
+            ents = caps.entries
+            bound = Or(*[And(tok(e[0]) == s['alias'], BoolVal(ev_tag(e[1]) == '#e')) for e in ents]) if ents else BoolVal(False)
+            prove(pc, And(Implies(s['has_alias'], bound), Implies(Not(s['has_alias']), BoolVal(len(ents) == 0)), BoolVal(len(ents) <= 1)), 'start: the alias (if any) is bound to this event and nothing else is captured', wit)
+        else:
+            prove(pc, And(*[Not(accepts(j)) for j in range(nsucc)]), 'start: no run is started only if no first step accepts the event', wit)
+    return {'spec': [str(x) for x in spec], 'verdicts': verdicts, 'paths': len(res), 'queries': ex.queries + stats['q'], 'solver_s': ex.solver_s + stats['s'], 'inconclusive': list(ex.inconclusive), 'wall_s': time.time() - t0}
+
+
 def _worker(spec):
+    if spec and spec[0] == 'start':
+        try:
+            return job_start(spec)
+        except Exception as e:
+            import traceback; traceback.print_exc()
+            return {'spec': [str(x) for x in spec], 'error': '%s: %s' % (type(e).__name__, e), 'verdicts': [], 'paths': 0, 'queries': 0, 'solver_s': 0, 'inconclusive': []}
+    return _worker_step(spec)
+
+
+def _worker_step(spec):
     try:
         return job(spec)
     except Exception as e:
@@ -432,11 +533,17 @@ def run(ctx):
                 for strict in (False, True):
                     if strict and (nsucc > 1 or op not in ('Eq', 'Lt')): continue
                     tasks.append((nsucc, kinds, op, strict, tier_n))
+    # the run start (first step): 1..2 first-step candidates, filters absent / literal / reference (which cannot hold: nothing is captured yet), both time semantics
+    for nsucc in (1, 2):
+        for kinds in itertools.product(['none', 'lit', 'ref'], repeat=nsucc):
+            for op in (OPS if (nsucc == 1 and 'lit' in kinds) else ['Lt']):
+                for event_time in (False, True):
+                    tasks.append(('start', nsucc, kinds, op, event_time, ctx.tier if nsucc == 1 else 'quick'))
     with ProcessPoolExecutor(max_workers=14, mp_context=mp.get_context('fork')) as pool:
         res = list(pool.map(_worker, tasks))
     binp = None; seen = set()
     for r in res:
-        tgt = 'advance_run_shared'; cls = ' '.join(r['spec'])
+        tgt = 'try_start_run_shared' if r['spec'][0] == 'start' else 'advance_run_shared'; cls = ' '.join(r['spec'])
         if r.get('error'):
             ctx.inconclusive.append('%s (%s): %s' % (tgt, cls, r['error'])); continue
         for why in sorted(set(r['inconclusive'])): ctx.inconclusive.append('%s (%s): %s' % (tgt, cls, why))
